@@ -1135,3 +1135,19 @@ Lemma lazy_no_work p : lazy p = true ->
   | _ => True
   end.
 Proof. destruct p; cbn; try discriminate; auto. Qed.
+
+(** * The statement shapes of the source the LTS was written against (translator item
+    c13EmitC13Shape): every re-entry into getCertDuringHandshake passes loadOrObtainIfNecessary =
+    false; each of the three release sections is Lock; close(wait); delete(map, name); Unlock (one
+    critical section = the atomic steps [rel_l] / [rel_o]); unblockWaiters is called once in
+    obtainOnDemandCertificate (after ObtainCertAsync, right before the return) and twice in
+    renewDynamicCertificate (denial path, normal path), never deferred; serve-current iff
+    timeLeft > 0 && !revoked; background renewal iff timeLeft > 0.  By computation. *)
+Lemma source_shape :
+  hs_reentry_load_args = [[false]; [false]; [false]] /\
+  hs_release_shapes = [[1; 2; 3; 4]; [1; 2; 3; 4]; [1; 2; 3; 4]]%nat /\
+  hs_unblock_call_counts = [1; 2]%nat /\
+  hs_obtain_unblock_then_return = true /\
+  hs_serve_current_iff_unexpired_unrevoked = true /\
+  hs_background_iff_unexpired = true.
+Proof. repeat split. Qed.
